@@ -417,6 +417,61 @@ def check_tsweep(T, li):
     return out + [("@tsweep", "")]
 
 
+
+# ---- the Results store: one value per stored time, retrievable by exactly that time ------------------------------------
+RS_GRID = [0.0, 1e-7, 0.25, 0.25 * (1 + 4e-6), 0.5, math.nextafter(0.5, 1.0), 0.999995, 1.0 - 1e-9, 1.0]
+
+
+def rstore_cases(tier):
+    out = []
+    for r in range(1, 5 if tier == "quick" else 6):
+        for sub in itertools.combinations(range(len(RS_GRID)), r):
+            out.append(("rstore", sub))
+    return out
+
+
+def check_rstore(sub):
+    """Values stored for two observables at the times `sub` of RS_GRID (some of them closer than 1e-5 relative): every value is
+    returned for exactly its own time, by observable and by tag; other times are refused; the store is ascending and append-only."""
+    from pulser.backend import Occupation, StateResult
+    from pulser.backend.results import Results
+
+    times = [RS_GRID[i] for i in sub]
+    res = Results(atom_order=("q0",), total_duration=1_000_000)
+    obs = [Occupation(), StateResult(tag_suffix="s")]
+    out = []
+    for k, o in enumerate(obs):
+        for j, t in enumerate(times):
+            res._store(observable=o, time=t, value=(k, j, t))
+    for k, o in enumerate(obs):
+        for how, key in (("observable", o), ("tag", o.tag)):
+            if res.get_result_times(key) != times:
+                out.append((f"C20:results-store:times:{how}", f"{res.get_result_times(key)} vs stored {times}"))
+            for j, t in enumerate(times):
+                try:
+                    got = res.get_result(key, t)
+                except Exception as e:
+                    out.append((f"C20:results-store:stored-time-refused:{how}", f"time {t!r} of {times}: {e}"[:200]))
+                    continue
+                if got != (k, j, t):
+                    out.append((f"C20:results-store:wrong-value:{how}", f"get_result at {t!r} returned the value stored at {got[2]!r} (times {times})"))
+            # times that are clearly not stored (farther than 1e-4 from every stored time) must not be answered
+            for t in ([(a + b) / 2 for a, b in zip(times, times[1:]) if b - a > 2e-4] + [times[-1] + 1e-3]):
+                try:
+                    got = res.get_result(key, t)
+                    out.append((f"C20:results-store:unstored-time-answered:{how}", f"get_result at {t!r} (not stored; stored {times}) returned {got}"))
+                except ValueError:
+                    pass
+        if getattr(res, o.tag) != [(k, j, t) for j, t in enumerate(times)] or res.get_tagged_results()[o.tag] != getattr(res, o.tag):
+            out.append(("C20:results-store:tag-attribute", f"{o.tag}"))
+        try:
+            res._store(observable=o, time=times[-1], value="again")
+            out.append(("C20:results-store:same-time-stored-twice", f"{times[-1]!r}"))
+        except RuntimeError:
+            pass
+    return out + [("@rstore", "")]
+
+
 # ---- BitStrings observable follows the measurement probabilities (RNG tape) -------------------------------------
 def bit_cases(tier):
     out = []
@@ -502,12 +557,14 @@ def worker(case):
             return check_bits(*case[1:])
         if k == "tsweep":
             return check_tsweep(*case[1:])
+        if k == "rstore":
+            return check_rstore(case[1])
     return []
 
 
 def run(tier, seed):
     res = Result("exploration")
-    cases = obs_cases(tier) + repr_cases(tier) + e2e_cases(tier) + bit_cases(tier) + tsweep_cases(tier)
+    cases = obs_cases(tier) + repr_cases(tier) + e2e_cases(tier) + bit_cases(tier) + tsweep_cases(tier) + rstore_cases(tier)
     outs = gridx.run(worker, cases, chunksize=4)
     classes = {}
     for c, r in zip(cases, outs):
@@ -517,7 +574,7 @@ def run(tier, seed):
             else:
                 res.add(Violation(fp, d, {"engine": "grid", "case": repr(c)}))
     res.coverage = dict(
-        evaluations=len(cases), distinct_nontrivial=sum(v for k, v in classes.items() if k in ("@obs", "@oprepr", "@strepr", "@e2e", "@bits", "@tsweep")),
+        evaluations=len(cases), distinct_nontrivial=sum(v for k, v in classes.items() if k in ("@obs", "@oprepr", "@strepr", "@e2e", "@bits", "@tsweep", "@rstore")),
         exhaustive=True, outcome_classes=classes,
         rule="states: 8-9 member family (basis states, uniform, signed/complex, entangled, 1/4-3/4 mixture, maximally mixed, diagonal) as "
              "ket and as density matrix x eigenstate sets of 2, 3 and 4 levels x 1-3 qudits x 3 Hamiltonians (two full rank, one rank "
